@@ -54,4 +54,7 @@ CommentExempt == /\ Statements(Commented) = <<toks>>
 \* 8. a comment line and a blank line between continued lines do not change the reading
 Interleaved == IF Len(Lines) > 1 THEN <<Lines[1], <<32, 33, 120>>, <<>>>> \o Tail(Lines) ELSE Lines
 InterleaveAccepted == Statements(Interleaved) = <<toks>>
+\* 9. a line that holds nothing but `&` is reported (and only such a line)
+WithLone == IF Len(Lines) > 1 THEN <<Lines[1], <<32, 38>>>> \o Tail(Lines) ELSE <<<<32, 38>>>> \o Lines
+LoneReported == LoneAmp(Lines, 1) = 0 /\ LoneAmp(WithLone, 1) = (IF Len(Lines) > 1 THEN 2 ELSE 1)
 =============================================================================
